@@ -83,18 +83,17 @@ theorem pyInt_posVal {t : Str} (ht : PosText t) {i : Int} (h : pyInt t = .ok i) 
   refine ⟨pyInt_pos ht h, ?_⟩
   obtain ⟨c, r, rfl, h1, h9⟩ := ht
   obtain ⟨hsp, hm, hp, hd, hv⟩ := char_facts h1 h9
-  have hstrip : strip (c :: r) = c :: dropWhileEnd isPySpace r := by
-    simp [strip, List.dropWhile, hsp, dropWhileEnd_cons hsp]
-  have hmatch : pyInt.match_1 (fun _ => Bool × List Char) (c :: dropWhileEnd isPySpace r)
+  have hstrip : numText (c :: r) = c :: dropWhileEnd isCSpace (r.map foldChar) := numText_pos h1 h9 r
+  have hmatch : pyInt.match_1 (fun _ => Bool × List Char) (c :: dropWhileEnd isCSpace (r.map foldChar))
       (fun r => (true, r)) (fun r => (false, r)) (fun r => (false, r))
-      = (false, c :: dropWhileEnd isPySpace r) := by
+      = (false, c :: dropWhileEnd isCSpace (r.map foldChar)) := by
     split
     · next heq => injection heq with h2 _; exact absurd h2 hm
     · next heq => injection heq with h2 _; exact absurd h2 hp
     · rfl
   unfold pyInt at h
   simp only [hstrip, hmatch, digitsWithUnderscores, digitsGo, hd, if_true] at h
-  cases hg : digitsGo 1 (dropWhileEnd isPySpace r) with
+  cases hg : digitsGo 1 (dropWhileEnd isCSpace (r.map foldChar)) with
   | none => simp [hg] at h
   | some ds =>
     simp only [hg, Option.map_some] at h
